@@ -4,3 +4,5 @@ import Proofs.Waveform
 import Proofs.Beatgrid
 import Proofs.Txn
 import Proofs.Chain
+import Proofs.ImplV2Lists
+import Proofs.ZlibLoop
